@@ -38,7 +38,7 @@ theorem torn_header_falls_back (existing : Bytes) (b : Leader) (hdr : Header) (r
   have e2 : ¬ existing.length < 2 * Spec.headerSize := by omega
   have e3 : ¬ existing.length > Spec.entriesOffset := by omega
   refine ⟨⟨{ bits := (!b.headerBit, b.headerBit) }, hdr, [], []⟩, ?_, rfl, ?_, rfl⟩
-  · simp [openLog, e1, e2, e3, h1, h2, hd]
+  · simp [openLog, readLog, e1, e2, e3, h1, h2, hd]
   · simp [State.currentBit, Spec.currentBit]
 
 end HC.C07
